@@ -102,6 +102,9 @@ class Walker:
                 self.exprs(s.test, qual, guards)
                 self.block(s.body, qual, guards + [(True, cond)], rest=after + rest)
                 self.block(s.orelse, qual, guards + [(False, cond)], rest=after + rest)
+                # `if c: ...; break/return/continue/raise` without else: what follows runs only when c is false
+                if not s.orelse and s.body and isinstance(s.body[-1], (ast.Break, ast.Return, ast.Continue, ast.Raise)):
+                    guards = guards + [(False, cond)]
                 continue
             if isinstance(s, (ast.For, ast.While)):
                 hdr = ('for %s in %s' % (ast.unparse(s.target), ast.unparse(s.iter))) if isinstance(s, ast.For) else ('while %s' % ast.unparse(s.test))
